@@ -12,6 +12,15 @@ mod verif_replay_entry_mod {
     #[test]
     fn verif_replay_entry() {
         let name = std::env::var("VERIF_HARNESS").expect("VERIF_HARNESS");
+        if std::env::var("VERIF_SEARCH").is_ok() {
+            // fallback when Kani's trace is too large for concrete playback: native enumeration
+            #[cfg(feature = "message_scheme")]
+            if name == "message_scheme::ratchet::verif_proofs::one_step_from_any_valid_state" {
+                crate::sym::search(crate::message_scheme::ratchet::verif_proofs::one_step_from_any_valid_state, 2_000_000);
+                return;
+            }
+            panic!("no search mode for {name}");
+        }
         let script = std::fs::read_to_string(std::env::var("VERIF_SCRIPT").expect("VERIF_SCRIPT")).unwrap();
         crate::sym::script::load(crate::sym::script::parse(&script));
         let mut found = false;
